@@ -400,6 +400,15 @@ def run(program, rep, tier):
                why='a delivered event stays in the queue and keeps the '
                'objects it carries alive during the following callbacks')
     check_inline_deref(program, rep)
+    # handlers that vanish DURING a dispatch (a callback clears the
+    # dispatcher / deletes their entities) are skipped silently: the loop may
+    # not go back to the table for them (C03's rule on stale key knowledge)
+    from rules import c03
+    rep.borrow(c03.check_unknown, program, rep,
+               keep=lambda o: o.rule == 'C03.unknown',
+               rename=lambda r: 'C10.vanished',
+               why='a dispatch in which the remaining handlers vanish raises '
+               'KeyError instead of skipping them')
     check_no_strong(program, rep)
     check_cleanup(program, rep)
     evrules.delivery_sites(program, rep, 'C10', {'deref'})
